@@ -288,6 +288,30 @@ fn sw_transport(a: &mut Acc, b: &[u8]) {
         Err(e) => a.d(e),
     }
     a.d(Icmpv6Header::from_slice(b).map(|(h, r)| (h, r.len())));
+    // neighbour discovery option areas: behind the ICMPv6 header and behind each possible fixed part
+    for off in [8usize, 16, 24, 40] {
+        if b.len() >= off {
+            let mut it = icmpv6::NdpOptionsIterator::from_slice(&b[off..]);
+            let mut budget = 80;
+            loop {
+                a.s(it.rest());
+                match it.next() {
+                    None => break,
+                    Some(Ok(o)) => {
+                        a.s(o.as_bytes());
+                        a.d(o);
+                    }
+                    Some(Err(e)) => a.d(e),
+                }
+                budget -= 1;
+                if budget == 0 {
+                    a.d("UNBOUNDED");
+                    break;
+                }
+            }
+            a.d(it.next());
+        }
+    }
     a.d(IgmpHeader::from_slice(b).map(|(h, r)| (h, r.len())));
 }
 
